@@ -128,9 +128,20 @@ func (m *concModel) isNodePtr(t types.Type) bool {
 
 // org classifies where a pointer-like value comes from.
 func (m *concModel) org(v ssa.Value, depth int) origin {
-	if depth > 12 {
+	return m.orgS(v, depth, map[ssa.Value]bool{})
+}
+
+// orgS: origin with a set of values in progress; a value met again while it is
+// being classified contributes nothing new (greatest fixpoint: "all sources fresh").
+func (m *concModel) orgS(v ssa.Value, depth int, busy map[ssa.Value]bool) origin {
+	if depth > 14 {
 		return oUnknown
 	}
+	if busy[v] {
+		return oFresh
+	}
+	busy[v] = true
+	defer delete(busy, v)
 	switch x := v.(type) {
 	case *ssa.Alloc, *ssa.MakeSlice, *ssa.MakeMap:
 		return oFresh
@@ -141,14 +152,14 @@ func (m *concModel) org(v ssa.Value, depth int) origin {
 	case *ssa.Global:
 		return oGlobal
 	case *ssa.FieldAddr:
-		return m.org(x.X, depth+1)
+		return m.orgS(x.X, depth+1, busy)
 	case *ssa.IndexAddr:
-		return m.org(x.X, depth+1)
+		return m.orgS(x.X, depth+1, busy)
 	case *ssa.Slice:
-		return m.org(x.X, depth+1)
+		return m.orgS(x.X, depth+1, busy)
 	case *ssa.UnOp:
 		if x.Op == token.MUL {
-			o := m.org(x.X, depth+1)
+			o := m.orgS(x.X, depth+1, busy)
 			if o == oFresh || o == oCallFresh {
 				// what was stored into the fresh object? look for the stores when it is a local cell
 				if al, ok := x.X.(*ssa.Alloc); ok {
@@ -157,12 +168,38 @@ func (m *concModel) org(v ssa.Value, depth int) origin {
 					for _, r := range *al.Referrers() {
 						if st, ok := r.(*ssa.Store); ok && st.Addr == ssa.Value(al) {
 							n++
-							if o2 := m.org(st.Val, depth+2); o2 > worst {
+							if o2 := m.orgS(st.Val, depth+2, busy); o2 > worst {
 								worst = o2
 							}
 						}
 					}
 					if n > 0 && !allocAddressTaken(al) {
+						return worst
+					}
+				}
+				// a field of a fresh object: what this function stored into that field of that object
+				if fa, ok := x.X.(*ssa.FieldAddr); ok {
+					worst := oFresh
+					n := 0
+					if fn := x.Parent(); fn != nil {
+						for _, b := range fn.Blocks {
+							for _, in := range b.Instrs {
+								st, ok := in.(*ssa.Store)
+								if !ok {
+									continue
+								}
+								fa2, ok := st.Addr.(*ssa.FieldAddr)
+								if !ok || fa2.Field != fa.Field || fa2.X != fa.X {
+									continue
+								}
+								n++
+								if o2 := m.orgS(st.Val, depth+2, busy); o2 > worst {
+									worst = o2
+								}
+							}
+						}
+					}
+					if n > 0 {
 						return worst
 					}
 				}
@@ -173,7 +210,7 @@ func (m *concModel) org(v ssa.Value, depth int) origin {
 	case *ssa.Call:
 		if core.IsBuiltin(&x.Call, "append") {
 			// result may alias the first operand
-			o := m.org(x.Call.Args[0], depth+1)
+			o := m.orgS(x.Call.Args[0], depth+1, busy)
 			return o
 		}
 		if f := x.Call.StaticCallee(); f != nil && m.freshRet[f] {
@@ -186,14 +223,14 @@ func (m *concModel) org(v ssa.Value, depth int) origin {
 			if e == ssa.Value(x) {
 				continue
 			}
-			o := m.org(e, depth+2)
+			o := m.orgS(e, depth+2, busy)
 			if o > worst {
 				worst = o
 			}
 		}
 		return worst
 	case *ssa.ChangeType:
-		return m.org(x.X, depth+1)
+		return m.orgS(x.X, depth+1, busy)
 	case *ssa.Convert:
 		if core.IsByteSlice(x.Type()) || core.IsString(x.Type()) {
 			return oFresh
